@@ -87,6 +87,65 @@ func next() I {
 	return callCounter
 }
 
+// sat and at read an element; an empty operand yields zero instead of a panic.
+func sat(s string, i I) byte {
+	if len(s) == 0 {
+		return 0
+	}
+	return s[ix(i, len(s))]
+}
+
+func at[T any](s []T, i I) T {
+	if len(s) == 0 {
+		var z T
+		return z
+	}
+	return s[ix(i, len(s))]
+}
+
+// named results shadowed by inner declarations: "return res, ok" names the inner variables,
+// which must be stored into the results.
+func nr0(a I) (res I, ok bool) {
+	res = a + 1
+	if a > 3 {
+		res, ok := a*2, true
+		return res, ok
+	}
+	for i := I(0); i < 2; i++ {
+		ok := i == 1
+		if ok {
+			res := a - i
+			return res, ok
+		}
+	}
+	return res, ok
+}
+
+func nr1(a I) (res I, ok bool) {
+	defer func() { res += 100 }()
+	if res, ok := a+7, a%2 == 0; ok {
+		return res, ok
+	}
+	{
+		ok, res := true, a
+		_ = res
+		return res - 1, ok
+	}
+}
+
+func nr2(a I) (x, y I) {
+	x, y = 1, 2
+	if a > 0 {
+		y, x := a, a+1
+		return y, x
+	}
+	func() {
+		x, y := I(9), I(8)
+		_, _ = x, y
+	}()
+	return y, x
+}
+
 // seq traces the moment it is evaluated: operands of calls are evaluated in source order.
 func seq(k I) I {
 	callCounter++
